@@ -20,7 +20,8 @@ RULE = ('inputs: symmetric sign patterns over {-,0,+} on 4 nodes with >=1 positi
         'sign patterns on swap quads (+ reciprocal / extra arcs); budgets 1-2 iterations; null models: bin_swaps in {0, one '
         'iteration} x wei_freq in {0, 1, 0.5}, <=3 positive and <=3 negative connections (permutation menus <= 6!), plus '
         '5-node inputs whose negative support is one representative per isomorphism class of 5-edge (thorough: and 6-edge) '
-        'graphs with tied dyadic magnitudes from {1/4,1/2,1} x wei_freq in {0.25,0.5,1}; ALL '
+        'graphs with tied dyadic magnitudes from {1/4,1/2,1} x wei_freq in {0.25,0.5,1}, and 5-node undirected / directed inputs with 5-6 negative connections x wei_freq in '
+        '{0.4, 0.7, 0.8} (not reciprocals of integers); ALL '
         'generator answers per configuration; non-trivial = configuration with >= 2 distinct reachable outputs')
 ASSUMPTIONS = ['distinct integer magnitudes so every weight is identifiable (4-node inputs); tied dyadic magnitudes with additive '
                'coincidences on the 5-node null-model inputs', 'state merging as in C01',
@@ -147,6 +148,28 @@ def catalogue(thorough):
             for wf in (0.25, 0.5, 1):
                 cfgs.append({'fn': 'null_model_und_sign', 'tag': 'neg5_%s_%d' % (cls, k), 'W': W,
                              'params': {'bin_iters': 0, 'wei_freq': wf}})
+    # frequencies that are not reciprocals of integers (period and number of rounds are rounded separately) need
+    # at least 4-5 connections of one sign
+    for k, (cls, edges) in enumerate(iso_classes5((5,))[:2 if not thorough else 6]):
+        W = np.zeros((5, 5))
+        for m, (a, b) in enumerate(edges):
+            W[a, b] = W[b, a] = -(0.5 + 0.5 * (m % 2))
+        free = [(a, b) for a in range(5) for b in range(a + 1, 5) if W[a, b] == 0]
+        if free:
+            W[free[0]] = W[free[0][::-1]] = 1.0
+        for wf in ((0.4, 0.7, 0.8) if thorough else (0.4, 0.7)):
+            cfgs.append({'fn': 'null_model_und_sign', 'tag': 'frac_%s' % cls, 'W': W,
+                         'params': {'bin_iters': 0, 'wei_freq': wf}})
+    for k, arcs in enumerate(([(0, 1), (1, 2), (2, 3), (3, 4), (4, 0)], [(0, 1), (0, 2), (1, 2), (3, 0), (2, 4)],
+                              [(0, 1), (1, 0), (2, 3), (3, 2), (4, 1)])):
+        W = np.zeros((5, 5))
+        for m, (a, b) in enumerate(arcs):
+            W[a, b] = -(0.5 + 0.5 * (m % 2))
+        W[0, 3] = 1.0
+        W[2, 0] = 0.5 if k else 0.0
+        for wf in ((0.4, 0.7, 0.8, 1, 0.5) if thorough else (0.4, 0.7)):
+            cfgs.append({'fn': 'null_model_dir_sign', 'tag': 'dfrac_%d' % k, 'W': W,
+                         'params': {'bin_iters': 0, 'wei_freq': wf, 'dir_rewirer': True}})
     small_d = [(tag, W) for tag, W in dir_patterns(thorough) if np.count_nonzero(W) <= 5]
     small_d = small_d[::(3 if not thorough else 1)]
     for tag, W in small_d:
